@@ -860,6 +860,11 @@ def run(ctx):
         (c["retried"] > 1000 and len(acc.outcomes) >= 30, "enough retried runs and distinct outcome classes"),
         (c["len:%d" % (5 if ctx.thorough else 4)] > 0, "scripts of the maximal length were reached"),
     ]
+    if acc.viol:
+        # the diversity guards describe a run on which the property HELD; an implementation that breaks
+        # the property may well remove some class of behaviour (e.g. never stop exactly at the budget),
+        # and that must surface as the violation it is, not as "broken check". Keep the structural ones.
+        vac = vac[:4]
     coverage = {
         "distinct_nontrivial": len(acc.distinct),
         "rule": ("closed-loop urlopen executions over (Retry policy, method, pool kind, outcome script); scripts are "
